@@ -284,7 +284,14 @@ pub fn check_program(model: &mut Model, report: &mut Report, cfg: &Cfg, code: &s
                     });
                 }
             }
-            None => report.count("oracle_skipped_input_not_error_free", 1),
+            None => {
+                report.count("oracle_skipped_input_not_error_free", 1);
+                if std::env::var("C17_DEBUG").is_ok() {
+                    let b0 = exec::parse(code).unwrap();
+                    let o = exec::run_block(model, LEVEL, &with_prelude(&cfg.prelude_in, &b0));
+                    report.notes.push(format!("NOT-ERROR-FREE {} :: {}\n{}", cfg.label, o, code));
+                }
+            }
         }
     }
 
